@@ -1,6 +1,6 @@
 /-
 The type of a successful conversion to a placeholder-free target is the target
-type without its optional-attribute annotations (for regular type pairs).
+type without its optional-attribute annotations (for regular E type pairs).
 -/
 import CtyModel.Lemmas.ConvertPlan
 import CtyModel.Lemmas.ConvertRepl
@@ -10,19 +10,19 @@ namespace Convert
 open Ty
 
 /-- what is assumed of a (source type, target type, value) triple; inherited by members -/
-structure Conds (inT out : Ty) (v : Value) : Prop where
+structure Conds (E : Env) (inT out : Ty) (v : Value) : Prop where
   ty : v.ty = inT
   wfI : inT.wf = true
   wfO : out.wf = true
   optI : inT.hasOpt = false
   dynO : out.hasDyn = false
-  reg : regular inT out = true
+  reg : regular E inT out = true
   wt : wtP inT v.v = true
 
 /-- the recursive calls behave: a wrapped conversion yields the erased target type -/
 def RecOK (E : Env) (rec : Rec) : Prop :=
   ∀ (inT out : Ty) (uns : Bool) (c : Plan) (v r : Value), gck E inT out uns = some c →
-    Conds inT out v → rec (.wrap out c) v = .ok r → r.ty = out.stripOpt
+    Conds E inT out v → rec (.wrap out c) v = .ok r → r.ty = out.stripOpt
 
 /-- a plain (unmarked, known, non-null) payload -/
 def plain (p : Payload) : Prop := p.isMarked = false ∧ p.isKnown = true ∧ p.isNull = false
@@ -116,7 +116,7 @@ theorem hasDynL_mem {ts : List Ty} (h : hasDynL ts = false) : ∀ t ∈ ts, hasD
 /-! ### one element -/
 
 theorem planFor_ty {E : Env} {rec : Rec} (hrec : RecOK E rec) {uns : Bool} {it ot : Ty} {p : Plan}
-    {e e' : Value} (hp : PlanFor E uns it ot p) (hc : Conds it ot e)
+    {e e' : Value} (hp : PlanFor E uns it ot p) (hc : Conds E it ot e)
     (h : applyOpt rec p e = .ok e') : e'.ty = ot.stripOpt := by
   rcases hp with ⟨rfl, he⟩ | ⟨c, rfl, hg⟩
   · simp [applyOpt] at h; subst h
@@ -152,7 +152,7 @@ theorem applyZip_all {E : Env} {rec : Rec} (hrec : RecOK E rec) {uns : Bool} {t 
     (hwt : wf t = true) (hdt : hasDyn t = false) :
     ∀ (its : List Ty) (cs : List Plan) (ps : List Payload) (es' : List Value),
     All2 (fun it p => PlanFor E uns it t p) its cs → wtZip its ps = true →
-    (∀ it ∈ its, wf it = true ∧ hasOpt it = false ∧ regular it t = true) →
+    (∀ it ∈ its, wf it = true ∧ hasOpt it = false ∧ regular E it t = true) →
     applyZip rec post cs (zipTys its ps) = .ok es' →
     es'.length = its.length ∧ ∀ e' ∈ es', e'.ty = stripOpt t
   | [], _, [], es', .nil, _, _, h => by simp [zipTys, applyZip] at h; subst h; simp
@@ -165,7 +165,7 @@ theorem applyZip_all {E : Env} {rec : Rec} (hrec : RecOK E rec) {uns : Bool} {t 
     obtain ⟨vs', hvs', h⟩ := Res.bind_eq_ok h
     simp at h; subst h
     obtain ⟨hwi, hoi, hri⟩ := hall it (by simp)
-    have hc : Conds it t ⟨it, p⟩ := ⟨rfl, hwi, hwt, hoi, hdt, hri, hw.1⟩
+    have hc : Conds E it t ⟨it, p⟩ := ⟨rfl, hwi, hwt, hoi, hdt, hri, hw.1⟩
     have h1 := planFor_ty hrec hp hc hv'
     have ih := applyZip_all hrec post hpost hwt hdt its _ ps vs' hps hw.2
       (fun x hx => hall x (by simp [hx])) hvs'
@@ -181,7 +181,7 @@ theorem applyZip_zip {E : Env} {rec : Rec} (hrec : RecOK E rec) {uns : Bool} :
     ∀ (its ots : List Ty) (cs : List Plan) (ps : List Payload) (es' : List Value),
     All3 (fun it ot p => PlanFor E uns it ot p) its ots cs → wtZip its ps = true →
     wfL its = true → hasOptL its = false → wfL ots = true → hasDynL ots = false →
-    regularZip its ots = true →
+    regularZip E its ots = true →
     applyZip rec id cs (zipTys its ps) = .ok es' → es'.map (·.ty) = stripOptL ots
   | [], _, _, [], es', .nil, _, _, _, _, _, _, h => by
     simp [zipTys, applyZip] at h; subst h; simp [stripOptL]
@@ -197,7 +197,7 @@ theorem applyZip_zip {E : Env} {rec : Rec} (hrec : RecOK E rec) {uns : Bool} :
     obtain ⟨v', hv', h⟩ := Res.bind_eq_ok h
     obtain ⟨vs', hvs', h⟩ := Res.bind_eq_ok h
     simp at h; subst h
-    have hc : Conds it ot ⟨it, p⟩ := ⟨rfl, hwi.1, hwo.1, hoi.1, hdo.1, hr.1, hw.1⟩
+    have hc : Conds E it ot ⟨it, p⟩ := ⟨rfl, hwi.1, hwo.1, hoi.1, hdo.1, hr.1, hw.1⟩
     have h1 := planFor_ty hrec hp hc hv'
     have ih := applyZip_zip hrec its ots cs ps vs' hps hw.2 hwi.2 hoi.2 hwo.2 hdo.2 hr.2 hvs'
     simp [stripOptL, h1, ih]
@@ -296,7 +296,7 @@ theorem lookupVal_cons (n k : String) (v : Value) (ns : List String) (vs : List 
 def AttrOK (E : Env) (uns : Bool) (on : List String) (ot : List Ty) (oo : List Bool)
     (keys : List String) (convs : List Plan) (n : String) (it : Ty) (p : Plan) : Prop :=
   lookupPlan n keys convs = some p ∧ AttrPlan E uns on ot oo n it p ∧ wf it = true ∧ hasOpt it = false ∧
-  ∀ oty o, Ty.find n on ot oo = some (oty, o) → wf oty = true ∧ hasDyn oty = false ∧ regular it oty = true
+  ∀ oty o, Ty.find n on ot oo = some (oty, o) → wf oty = true ∧ hasDyn oty = false ∧ regular E it oty = true
 
 theorem objAttrLoop_spec {E : Env} {rec : Rec} (hrec : RecOK E rec) {uns : Bool} {on : List String}
     {ot : List Ty} {oo : List Bool} {keys : List String} {convs : List Plan} :
@@ -321,7 +321,7 @@ theorem objAttrLoop_spec {E : Env} {rec : Rec} (hrec : RecOK E rec) {uns : Bool}
       rcases List.mem_cons.mp hn' with rfl | hn'
       · simp [hfn] at hs
       · exact ih.2 n' hn' hs
-    · have hc : Conds it oty ⟨it, p⟩ :=
+    · have hc : Conds E it oty ⟨it, p⟩ :=
         ⟨rfl, hwi, (hout oty o hf).1, hoi, (hout oty o hf).2.1, (hout oty o hf).2.2, hw.1⟩
       have hstep : ∀ v', applyOpt rec c ⟨it, p⟩ = .ok v' → (stripNull v').ty = stripOpt oty :=
         fun v' hv' => stripNull_ty' (planFor_ty hrec hpf hc hv')
@@ -428,7 +428,7 @@ theorem mapObjLoop_spec {E : Env} {rec : Rec} (hrec : RecOK E rec) {uns : Bool} 
     (hl1 : names.length = tys.length) (hl2 : opts.length = tys.length)
     (hwi : wf ie = true) (hoi : hasOpt ie = false)
     (hty : ∀ n t o, Ty.find n names tys opts = some (t, o) →
-      wf t = true ∧ hasDyn t = false ∧ regular ie t = true) :
+      wf t = true ∧ hasDyn t = false ∧ regular E ie t = true) :
     ∀ (ks : List String) (ps : List Payload) (r : List String × List Value), wtAll ie ps = true →
     mapObjLoop rec names tys opts convs ks (ps.map fun p => ⟨ie, p⟩) = .ok r →
     ∀ n v, lookupVal n r.1 r.2 = some v → ∀ t o, Ty.find n names tys opts = some (t, o) → v.ty = stripOpt t
@@ -476,23 +476,22 @@ theorem mapObjFill_spec {keys : List String} {vals : List Value} {names : List S
     (ha : ∀ n v, lookupVal n keys vals = some v → ∀ t o, Ty.find n names tys opts = some (t, o) →
       v.ty = stripOpt t) :
     ∀ (ns : List String) (ts : List Ty) (os : List Bool) (out : List Value), ns.length = ts.length →
-    os.length = ts.length → FieldsIn ns ts os names tys opts → optFlat ts os = true →
+    os.length = ts.length → FieldsIn ns ts os names tys opts →
     mapObjFill keys vals ns ts os = .ok out → out.map (·.ty) = stripOptL ts
-  | [], [], [], out, _, _, _, _, h => by simp [mapObjFill] at h; subst h; simp [stripOptL]
-  | [], _ :: _, _, _, h, _, _, _, _ => by simp at h
-  | _ :: _, [], _, _, h, _, _, _, _ => by simp at h
-  | _, _ :: _, [], _, _, h, _, _, _ => by simp at h
-  | _, [], _ :: _, _, _, h, _, _, _ => by simp at h
-  | n :: ns, t :: ts, o :: os, out, h1, h2, hf, hflat, h => by
+  | [], [], [], out, _, _, _, h => by simp [mapObjFill] at h; subst h; simp [stripOptL]
+  | [], _ :: _, _, _, h, _, _, _ => by simp at h
+  | _ :: _, [], _, _, h, _, _, _ => by simp at h
+  | _, _ :: _, [], _, _, h, _, _ => by simp at h
+  | _, [], _ :: _, _, _, h, _, _ => by simp at h
+  | n :: ns, t :: ts, o :: os, out, h1, h2, hf, h => by
     simp only [FieldsIn] at hf
-    simp only [optFlat, Bool.and_eq_true, Bool.or_eq_true, Bool.not_eq_true'] at hflat
     simp only [mapObjFill] at h
     cases hl : lookupVal n keys vals with
     | some v =>
       simp only [hl] at h
       obtain ⟨rest, hrest, h⟩ := Res.map_eq_ok h
       subst h
-      have ih := mapObjFill_spec ha ns ts os rest (by simpa using h1) (by simpa using h2) hf.2 hflat.2 hrest
+      have ih := mapObjFill_spec ha ns ts os rest (by simpa using h1) (by simpa using h2) hf.2 hrest
       simp [stripOptL, ih, ha n v hl t o hf.1]
     | none =>
       simp only [hl] at h
@@ -500,12 +499,8 @@ theorem mapObjFill_spec {keys : List String} {vals : List Value} {names : List S
       · rename_i ho
         obtain ⟨rest, hrest, h⟩ := Res.map_eq_ok h
         subst h
-        have ih := mapObjFill_spec ha ns ts os rest (by simpa using h1) (by simpa using h2) hf.2 hflat.2 hrest
-        have hnoopt : hasOpt t = false := by
-          rcases hflat.1 with h | h
-          · simp [ho] at h
-          · exact h
-        simp [stripOptL, ih, Value.null, stripOpt_id_of_noOpt _ hnoopt]
+        have ih := mapObjFill_spec ha ns ts os rest (by simpa using h1) (by simpa using h2) hf.2 hrest
+        simp [stripOptL, ih, Value.null]
       · simp at h
 
 theorem mapRes_length {α β} {f : α → Res β} : ∀ {xs : List α} {ys : List β},
@@ -545,8 +540,8 @@ theorem find_mem_ty {k : String} : ∀ {ns : List String} {ts : List Ty} {os : L
     · exact List.mem_cons_of_mem _ (find_mem_ty h)
 
 theorem regularObj_find {inn : List String} {its : List Ty} {ios : List Bool} {n : String} {oty : Ty} {o : Bool} :
-    ∀ (ns : List String) (os : List Ty) (oos : List Bool), regularObj inn its ios ns os = true →
-    Ty.find n ns os oos = some (oty, o) → ∀ it b, Ty.find n inn its ios = some (it, b) → regular it oty = true
+    ∀ (ns : List String) (os : List Ty) (oos : List Bool), regularObj E inn its ios ns os = true →
+    Ty.find n ns os oos = some (oty, o) → ∀ it b, Ty.find n inn its ios = some (it, b) → regular E it oty = true
   | [], _, _, _, h => by simp [Ty.find] at h
   | _ :: _, [], _, _, h => by simp [Ty.find] at h
   | _ :: _, _ :: _, [], _, h => by simp [Ty.find] at h
@@ -578,7 +573,7 @@ theorem find_prefix : ∀ (pre : List String) (preT : List Ty) (preB : List Bool
     exact find_prefix pre preT preB k post t postT b postB (by simpa using h1) (by simpa using h2)
       (fun h => hk (by simp [h]))
 
-theorem regularAll_mem {ie : Ty} : ∀ {os : List Ty}, regularAll ie os = true → ∀ t ∈ os, regular ie t = true
+theorem regularAll_mem {ie : Ty} : ∀ {os : List Ty}, regularAll E ie os = true → ∀ t ∈ os, regular E ie t = true
   | [], _, _, h => by simp at h
   | o :: os, hr, t, ht => by
     simp only [regularAll, Bool.and_eq_true] at hr
@@ -608,7 +603,7 @@ def ElemsOK (E : Env) (v : Value) (ie : Ty) : Prop :=
 theorem converted_members {uns : Bool} {ie oe conv} {post : Value → Value}
     (hpost : ∀ v : Value, v.ty = stripOpt oe → (post v).ty = stripOpt oe)
     (hpf : PlanFor E uns ie oe conv) (hwi : wf ie = true) (hoi : hasOpt ie = false)
-    (hwo : wf oe = true) (hdo : hasDyn oe = false) (hreg : regular ie oe = true)
+    (hwo : wf oe = true) (hdo : hasDyn oe = false) (hreg : regular E ie oe = true)
     {es es' : List Value} (hes : ∀ e ∈ es, e.ty = ie ∧ wtP ie e.v = true)
     (h : mapRes (fun e => (applyOpt rec conv e).map post) es = .ok es') :
     es'.length = es.length ∧ ∀ e' ∈ es', e'.ty = stripOpt oe := by
@@ -620,7 +615,7 @@ theorem converted_members {uns : Bool} {ie oe conv} {post : Value → Value}
 
 theorem collToList_ty {uns : Bool} {ie oe conv} {v r : Value}
     (hpf : PlanFor E uns ie oe conv) (hwi : wf ie = true) (hoi : hasOpt ie = false)
-    (hwo : wf oe = true) (hdo : hasDyn oe = false) (hreg : regular ie oe = true)
+    (hwo : wf oe = true) (hdo : hasDyn oe = false) (hreg : regular E ie oe = true)
     (hel : ElemsOK E v ie) (h : applyStep E rec (.collToList oe conv) v = .ok r) :
     r.ty = .list oe.stripOpt := by
   have hnd : oe.isDyn = false := not_isDyn_of_noDyn hdo
@@ -642,7 +637,7 @@ theorem collToList_ty {uns : Bool} {ie oe conv} {v r : Value}
 
 theorem collToSet_ty {uns : Bool} {ie oe conv} {v r : Value}
     (hpf : PlanFor E uns ie oe conv) (hwi : wf ie = true) (hoi : hasOpt ie = false)
-    (hwo : wf oe = true) (hdo : hasDyn oe = false) (hreg : regular ie oe = true)
+    (hwo : wf oe = true) (hdo : hasDyn oe = false) (hreg : regular E ie oe = true)
     (hel : ElemsOK E v ie) (h : applyStep E rec (.collToSet oe conv) v = .ok r) :
     r.ty = .set oe.stripOpt := by
   have hnd : oe.isDyn = false := not_isDyn_of_noDyn hdo
@@ -662,7 +657,7 @@ theorem collToSet_ty {uns : Bool} {ie oe conv} {v r : Value}
 
 theorem collToMap_ty {uns : Bool} {ie oe conv} {v r : Value}
     (hpf : PlanFor E uns ie oe conv) (hwi : wf ie = true) (hoi : hasOpt ie = false)
-    (hwo : wf oe = true) (hdo : hasDyn oe = false) (hreg : regular ie oe = true)
+    (hwo : wf oe = true) (hdo : hasDyn oe = false) (hreg : regular E ie oe = true)
     (hel : ElemsOK E v ie) (h : applyStep E rec (.collToMap oe conv) v = .ok r) :
     r.ty = .map oe.stripOpt := by
   have hnd : oe.isDyn = false := not_isDyn_of_noDyn hdo
@@ -692,7 +687,7 @@ theorem collToMap_ty {uns : Bool} {ie oe conv} {v r : Value}
 
 theorem tupToList_ty {uns : Bool} {its : List Ty} {oe : Ty} {cs : List Plan} {ps : List Payload} {r : Value}
     (hpl : All2 (fun it p => PlanFor E uns it oe p) its cs) (hne : its ≠ []) (hw : wtZip its ps = true)
-    (hall : ∀ it ∈ its, wf it = true ∧ hasOpt it = false ∧ regular it oe = true)
+    (hall : ∀ it ∈ its, wf it = true ∧ hasOpt it = false ∧ regular E it oe = true)
     (hwo : wf oe = true) (hdo : hasDyn oe = false)
     (h : applyStep E rec (.tupToList cs uns) ⟨.tuple its, .seq ps⟩ = .ok r) : r.ty = .list oe.stripOpt := by
   simp only [applyStep, elemsOf] at h
@@ -713,7 +708,7 @@ theorem tupToList_ty {uns : Bool} {its : List Ty} {oe : Ty} {cs : List Plan} {ps
 
 theorem tupToSet_ty {uns : Bool} {its : List Ty} {oe : Ty} {cs : List Plan} {ps : List Payload} {r : Value}
     (hpl : All2 (fun it p => PlanFor E uns it oe p) its cs) (hne : its ≠ []) (hw : wtZip its ps = true)
-    (hall : ∀ it ∈ its, wf it = true ∧ hasOpt it = false ∧ regular it oe = true)
+    (hall : ∀ it ∈ its, wf it = true ∧ hasOpt it = false ∧ regular E it oe = true)
     (hwo : wf oe = true) (hdo : hasDyn oe = false)
     (h : applyStep E rec (.tupToSet cs) ⟨.tuple its, .seq ps⟩ = .ok r) : r.ty = .set oe.stripOpt := by
   simp only [applyStep, elemsOf] at h
@@ -754,7 +749,7 @@ theorem objToMap_ty {uns : Bool} {inn : List String} {its : List Ty} {ios : List
     {cs : List Plan} {ps : List Payload} {r : Value}
     (hpl : All2 (fun it p => PlanFor E uns it oe p) its cs) (hne : its ≠ []) (hw : wtZip its ps = true)
     (hnd : inn.Nodup) (hln : inn.length = its.length)
-    (hall : ∀ it ∈ its, wf it = true ∧ hasOpt it = false ∧ regular it oe = true)
+    (hall : ∀ it ∈ its, wf it = true ∧ hasOpt it = false ∧ regular E it oe = true)
     (hwo : wf oe = true) (hdo : hasDyn oe = false)
     (h : applyStep E rec (.objToMap inn cs oe uns) ⟨.object inn its ios, .smap inn ps⟩ = .ok r) :
     r.ty = .map oe.stripOpt := by
@@ -786,7 +781,7 @@ omit hU in
 theorem tupToTup_ty {uns : Bool} {its ots : List Ty} {cs : List Plan} {ps : List Payload} {r : Value}
     (hpl : All3 (fun it ot p => PlanFor E uns it ot p) its ots cs) (hw : wtZip its ps = true)
     (hwi : wfL its = true) (hoi : hasOptL its = false) (hwo : wfL ots = true) (hdo : hasDynL ots = false)
-    (hr : regularZip its ots = true)
+    (hr : regularZip E its ots = true)
     (h : applyStep E rec (.tupToTup cs) ⟨.tuple its, .seq ps⟩ = .ok r) : r.ty = .tuple (stripOptL ots) := by
   simp only [applyStep, elemsOf] at h
   obtain ⟨es, hes, h⟩ := Res.bind_eq_ok h
@@ -804,7 +799,7 @@ theorem attrOK_build {uns : Bool} {on : List String} {ot : List Ty} {oo : List B
     All3 (AttrPlan E uns on ot oo) ns its cs →
     (∀ n it b, Ty.find n (pre ++ ns) (preT ++ its) (preB ++ ios) = some (it, b) →
       wf it = true ∧ hasOpt it = false ∧ ∀ oty o, Ty.find n on ot oo = some (oty, o) →
-        wf oty = true ∧ hasDyn oty = false ∧ regular it oty = true) →
+        wf oty = true ∧ hasDyn oty = false ∧ regular E it oty = true) →
     All3 (AttrOK E uns on ot oo (pre ++ ns) (preC ++ cs)) ns its cs
   | _, _, _, _, [], _, _, _, _, _, _, _, _, _, .nil, _ => .nil
   | _, _, _, _, _ :: _, _ :: _, [], _, _, _, _, h, _, _, _, _ => by simp at h
@@ -845,7 +840,7 @@ theorem objToObj_ty {uns : Bool} {inn : List String} {its : List Ty} {ios : List
     (hpl : All3 (AttrPlan E uns on ot oo) inn its cs) (hw : wtZip its ps = true)
     (hwfI : wf (.object inn its ios) = true) (hoI : hasOpt (.object inn its ios) = false)
     (hwfO : wf (.object on ot oo) = true) (hdO : hasDyn (.object on ot oo) = false)
-    (hreg : regularObj inn its ios on ot = true) (hreq : requiredPresent on oo inn = true)
+    (hreg : regularObj E inn its ios on ot = true) (hreq : requiredPresent on oo inn = true)
     (h : applyStep E rec (.objToObj inn cs on ot oo) ⟨.object inn its ios, .smap inn ps⟩ = .ok r) :
     r.ty = .object on (stripOptL ot) (oo.map fun _ => false) := by
   simp only [wf, Bool.and_eq_true, beq_iff_eq] at hwfI hwfO
@@ -880,7 +875,7 @@ theorem mapToObj_ty {uns : Bool} {ie : Ty} {on : List String} {ot : List Ty} {oo
     (hpl : All2 (fun t p => MapObjPlan E uns ie t p) ot cs) (hw : wtAll ie ps = true)
     (hwi : wf ie = true) (hoi : hasOpt ie = false)
     (hwfO : wf (.object on ot oo) = true) (hdO : hasDyn (.object on ot oo) = false)
-    (hreg : regularAll ie ot = true) (hflat : optFlat ot oo = true)
+    (hreg : regularAll E ie ot = true)
     (h : applyStep E rec (.mapToObj on ot oo cs) ⟨.map ie, .smap ks ps⟩ = .ok r) :
     r.ty = .object on (stripOptL ot) (oo.map fun _ => false) := by
   simp only [wf, Bool.and_eq_true, beq_iff_eq] at hwfO
@@ -896,7 +891,7 @@ theorem mapToObj_ty {uns : Bool} {ie : Ty} {on : List String} {ot : List Ty} {oo
       intro n t o hf
       exact ⟨wfL_mem hwfO.2 t (find_mem_ty hf), hasDynL_mem hdO t (find_mem_ty hf), hregmem t (find_mem_ty hf)⟩)
     ks ps rr hw hrr
-  have htys := mapObjFill_spec hspec on ot oo vals hwfO.1.1.1 hwfO.1.1.2 (FieldsIn_self hwfO.1.2) hflat hvals
+  have htys := mapObjFill_spec hspec on ot oo vals hwfO.1.1.1 hwfO.1.1.2 (FieldsIn_self hwfO.1.2) hvals
   have hlen : vals.length = oo.length := by
     rw [mapObjFill_length on ot oo vals hwfO.1.1.1 hwfO.1.1.2 hvals, hwfO.1.1.2]
   simp only [objectVal, htys, map_false_of_length hlen]
@@ -940,7 +935,7 @@ theorem strToBool_ty {E : Env} {rec : Rec} {v r : Value} (h : applyStep E rec .s
 
 theorem inner_ty {E : Env} (hU : UnifyLaws E) {rec : Rec} (hrec : RecOK E rec)
     (inT out : Ty) (uns : Bool) (c : Plan) (v r : Value) (hg : gck E inT out uns = some c)
-    (hc : Conds inT out v) (hp : plain v.v) (h : applyStep E rec c v = .ok r) :
+    (hc : Conds E inT out v) (hp : plain v.v) (h : applyStep E rec c v = .ok r) :
     r.ty = out.stripOpt := by
   obtain ⟨hty, hwI, hwO, hoI, hdO, hreg, hwt⟩ := hc
   obtain ⟨vt, vp⟩ := v
@@ -970,7 +965,7 @@ theorem inner_ty {E : Env} (hU : UnifyLaws E) {rec : Rec} (hrec : RecOK E rec)
     case list ie =>
       have hwi : wf ie = true := by simpa [wf] using hwI
       have hoi : hasOpt ie = false := by simpa [hasOpt] using hoI
-      have hr : regular ie oe = true := by simpa [regular, Ty.isDyn] using hreg
+      have hr : regular E ie oe = true := by simpa [regular, Ty.isDyn] using hreg
       obtain ⟨ps, rfl, hps⟩ := shape_list hp hwt
       have hel : ElemsOK E ⟨.list ie, .seq ps⟩ ie := by
         intro es hes e he
@@ -987,7 +982,7 @@ theorem inner_ty {E : Env} (hU : UnifyLaws E) {rec : Rec} (hrec : RecOK E rec)
     case set ie =>
       have hwi : wf ie = true := by simpa [wf] using hwI
       have hoi : hasOpt ie = false := by simpa [hasOpt] using hoI
-      have hr : regular ie oe = true := by simpa [regular, Ty.isDyn] using hreg
+      have hr : regular E ie oe = true := by simpa [regular, Ty.isDyn] using hreg
       obtain ⟨ids, ps, rfl, hps⟩ := shape_set hp hwt
       have hel : ElemsOK E ⟨.set ie, .sset ids ps⟩ ie := by
         intro es hes e he
@@ -1004,9 +999,10 @@ theorem inner_ty {E : Env} (hU : UnifyLaws E) {rec : Rec} (hrec : RecOK E rec)
     case tuple its =>
       have hwi : wfL its = true := by simpa [wf] using hwI
       have hoi : hasOptL its = false := by simpa [hasOpt] using hoI
-      have hr : ∀ it ∈ its, regular it oe = true := by
-        have : (its.all fun it => regular it oe) = true := by simpa [regular, Ty.isDyn] using hreg
-        exact all_of_regular this
+      have hr : ∀ it ∈ its, regular E it oe = true := by
+        have := hreg
+        simp only [regular, Ty.isDyn, Bool.false_eq_true, if_false, Bool.and_eq_true] at this
+        exact all_of_regular this.1
       obtain ⟨ps, rfl, hps⟩ := shape_tuple hp hwt
       split at hg
       · simp at hg; subst hg
@@ -1026,7 +1022,7 @@ theorem inner_ty {E : Env} (hU : UnifyLaws E) {rec : Rec} (hrec : RecOK E rec)
     case list ie =>
       have hwi : wf ie = true := by simpa [wf] using hwI
       have hoi : hasOpt ie = false := by simpa [hasOpt] using hoI
-      have hr : regular ie oe = true := by simpa [regular, Ty.isDyn] using hreg
+      have hr : regular E ie oe = true := by simpa [regular, Ty.isDyn] using hreg
       obtain ⟨ps, rfl, hps⟩ := shape_list hp hwt
       have hel : ElemsOK E ⟨.list ie, .seq ps⟩ ie := by
         intro es hes e he
@@ -1044,7 +1040,7 @@ theorem inner_ty {E : Env} (hU : UnifyLaws E) {rec : Rec} (hrec : RecOK E rec)
     case set ie =>
       have hwi : wf ie = true := by simpa [wf] using hwI
       have hoi : hasOpt ie = false := by simpa [hasOpt] using hoI
-      have hr : regular ie oe = true := by simpa [regular, Ty.isDyn] using hreg
+      have hr : regular E ie oe = true := by simpa [regular, Ty.isDyn] using hreg
       obtain ⟨ids, ps, rfl, hps⟩ := shape_set hp hwt
       have hel : ElemsOK E ⟨.set ie, .sset ids ps⟩ ie := by
         intro es hes e he
@@ -1061,9 +1057,10 @@ theorem inner_ty {E : Env} (hU : UnifyLaws E) {rec : Rec} (hrec : RecOK E rec)
     case tuple its =>
       have hwi : wfL its = true := by simpa [wf] using hwI
       have hoi : hasOptL its = false := by simpa [hasOpt] using hoI
-      have hr : ∀ it ∈ its, regular it oe = true := by
-        have : (its.all fun it => regular it oe) = true := by simpa [regular, Ty.isDyn] using hreg
-        exact all_of_regular this
+      have hr : ∀ it ∈ its, regular E it oe = true := by
+        have := hreg
+        simp only [regular, Ty.isDyn, Bool.false_eq_true, if_false, Bool.and_eq_true] at this
+        exact all_of_regular this.1
       obtain ⟨ps, rfl, hps⟩ := shape_tuple hp hwt
       split at hg
       · simp at hg; subst hg
@@ -1083,7 +1080,7 @@ theorem inner_ty {E : Env} (hU : UnifyLaws E) {rec : Rec} (hrec : RecOK E rec)
     case map ie =>
       have hwi : wf ie = true := by simpa [wf] using hwI
       have hoi : hasOpt ie = false := by simpa [hasOpt] using hoI
-      have hr : regular ie oe = true := by simpa [regular, Ty.isDyn] using hreg
+      have hr : regular E ie oe = true := by simpa [regular, Ty.isDyn] using hreg
       obtain ⟨ks, ps, rfl, _, hps⟩ := shape_map hp hwt
       have hel : ElemsOK E ⟨.map ie, .smap ks ps⟩ ie := by
         intro es hes e he
@@ -1097,9 +1094,10 @@ theorem inner_ty {E : Env} (hU : UnifyLaws E) {rec : Rec} (hrec : RecOK E rec)
         simp only [wf, Bool.and_eq_true] at hwI; exact hwI.2
       have hoi : hasOptL its = false := by
         simp only [hasOpt, Bool.or_eq_false_iff] at hoI; exact hoI.2
-      have hr : ∀ it ∈ its, regular it oe = true := by
-        have : (its.all fun it => regular it oe) = true := by simpa [regular, Ty.isDyn] using hreg
-        exact all_of_regular this
+      have hr : ∀ it ∈ its, regular E it oe = true := by
+        have := hreg
+        simp only [regular, Ty.isDyn, Bool.false_eq_true, if_false, Bool.and_eq_true] at this
+        exact all_of_regular this.1
       obtain ⟨ps, rfl, hps⟩ := shape_object hp hwt
       split at hg
       · simp at hg; subst hg
@@ -1118,7 +1116,7 @@ theorem inner_ty {E : Env} (hU : UnifyLaws E) {rec : Rec} (hrec : RecOK E rec)
     case tuple its =>
       obtain ⟨hlen, cs, hcs, rfl⟩ := hg
       obtain ⟨ps, rfl, hps⟩ := shape_tuple hp hwt
-      have hr : regularZip its ots = true := by
+      have hr : regularZip E its ots = true := by
         have := hreg; simp [regular, Ty.isDyn] at this; exact this.2
       have hpl := gcZip_inv E uns hlen hcs
       simp [stripOpt, tupToTup_ty hrec hpl hps (by simpa [wf] using hwI) (by simpa [hasOpt] using hoI)
@@ -1133,78 +1131,15 @@ theorem inner_ty {E : Env} (hU : UnifyLaws E) {rec : Rec} (hrec : RecOK E rec)
       simp only [wf, Bool.and_eq_true, beq_iff_eq] at hwO'
       have hpl := mapToObjConvs_inv E uns ie (hwO'.1.1.2.symm) hcs
       simp [stripOpt, mapToObj_ty hU hrec hpl hps (by simpa [wf] using hwI) (by simpa [hasOpt] using hoI)
-        hwO hdO hr.1 hr.2 h]
+        hwO hdO hr h]
     case object inn its ios =>
       obtain ⟨hreq, cs, hcs, rfl⟩ := hg
       obtain ⟨ps, rfl, hps⟩ := shape_object hp hwt
-      have hr : regularObj inn its ios on ot = true := by simpa [regular, Ty.isDyn] using hreg
+      have hr : regularObj E inn its ios on ot = true := by simpa [regular, Ty.isDyn] using hreg
       have hwI' := hwI
       simp only [wf, Bool.and_eq_true, beq_iff_eq] at hwI'
       have hpl := gcObj_inv E uns on ot oo hwI'.1.1.1 hcs
       simp [stripOpt, objToObj_ty hU hrec hpl hps hwI hoI hwO hdO hr hreq h]
-
-/-! ### erasing the target's annotations keeps the pair regular -/
-mutual
-theorem regular_stripOpt : ∀ (inT out : Ty), regular inT out = true → regular inT (stripOpt out) = true
-  | inT, .dyn, h | inT, .bool, h | inT, .number, h | inT, .string, h | inT, .capsule _, h => by
-    simpa [stripOpt] using h
-  | inT, .map oe, h => by
-    cases inT <;> simp [regular, stripOpt, Ty.isDyn] at h ⊢
-    case map ie => exact regular_stripOpt ie oe h
-    case object inn its ios => exact fun t ht => regular_stripOpt t oe (h t ht)
-  | inT, .list oe, h => by
-    cases inT <;> simp [regular, stripOpt, Ty.isDyn] at h ⊢
-    case list ie => exact regular_stripOpt ie oe h
-    case set ie => exact regular_stripOpt ie oe h
-    case tuple its => exact fun t ht => regular_stripOpt t oe (h t ht)
-  | inT, .set oe, h => by
-    cases inT <;> simp [regular, stripOpt, Ty.isDyn] at h ⊢
-    case list ie => exact regular_stripOpt ie oe h
-    case set ie => exact regular_stripOpt ie oe h
-    case tuple its => exact fun t ht => regular_stripOpt t oe (h t ht)
-  | inT, .object on ots oo, h => by
-    cases inT <;> simp [regular, stripOpt, Ty.isDyn] at h ⊢
-    case map ie => exact ⟨regularAll_stripOpt ie ots h.1, optFlat_false _ _⟩
-    case object inn its ios => exact regularObj_stripOpt inn its ios on ots h
-  | inT, .tuple ots, h => by
-    cases inT <;> simp [regular, stripOpt, Ty.isDyn] at h ⊢
-    case tuple its => exact ⟨by simpa [stripOptL_length] using h.1, regularZip_stripOpt its ots h.2⟩
-termination_by structural _ out => out
-theorem regularAll_stripOpt : ∀ (ie : Ty) (os : List Ty), regularAll ie os = true →
-    regularAll ie (stripOptL os) = true
-  | _, [], _ => by simp [stripOptL, regularAll]
-  | ie, o :: os, h => by
-    simp only [regularAll, Bool.and_eq_true] at h
-    simp [stripOptL, regularAll, regular_stripOpt ie o h.1, regularAll_stripOpt ie os h.2]
-termination_by structural _ os => os
-theorem regularObj_stripOpt : ∀ (inn : List String) (its : List Ty) (ios : List Bool) (ns : List String)
-    (os : List Ty), regularObj inn its ios ns os = true → regularObj inn its ios ns (stripOptL os) = true
-  | _, _, _, [], _, _ => by
-    intros; rename_i os _; cases os <;> simp [stripOptL, regularObj]
-  | _, _, _, _ :: _, [], _ => by simp [stripOptL, regularObj]
-  | inn, its, ios, n :: ns, o :: os, h => by
-    simp only [regularObj, Bool.and_eq_true] at h
-    simp only [stripOptL, regularObj, Bool.and_eq_true]
-    refine ⟨?_, regularObj_stripOpt inn its ios ns os h.2⟩
-    have h1 := h.1
-    split at h1
-    · exact regular_stripOpt _ o h1
-    · rfl
-termination_by structural _ _ _ _ os => os
-theorem regularZip_stripOpt : ∀ (its os : List Ty), regularZip its os = true →
-    regularZip its (stripOptL os) = true
-  | [], os, _ => by cases os <;> simp [stripOptL, regularZip]
-  | _ :: _, [], _ => by simp [stripOptL, regularZip]
-  | it :: its, o :: os, h => by
-    simp only [regularZip, Bool.and_eq_true] at h
-    simp [stripOptL, regularZip, regular_stripOpt it o h.1, regularZip_stripOpt its os h.2]
-termination_by structural _ os => os
-theorem optFlat_false : ∀ (ts : List Ty) (os : List Bool),
-    optFlat (stripOptL ts) (os.map fun _ => false) = true
-  | [], _ => by simp [stripOptL, optFlat]
-  | _ :: _, [] => by simp [stripOptL, optFlat]
-  | t :: ts, o :: os => by simp [stripOptL, optFlat, optFlat_false ts os]
-end
 
 /-! ### the wrapper, and every fuel -/
 
@@ -1230,7 +1165,7 @@ theorem recOK_apply {E : Env} (hU : UnifyLaws E) : ∀ n, RecOK E (apply E n) :=
         split at h
         · rename_i r0 hr0
           simp at h; subst h
-          have hc' : Conds inT out v.unmark :=
+          have hc' : Conds E inT out v.unmark :=
             ⟨hc.ty, hc.wfI, hc.wfO, hc.optI, hc.dynO, hc.reg, unmark_wt hm hc.wt⟩
           exact ih n (Nat.lt_succ_self n) inT out uns c v.unmark r0 hg hc' hr0
         · rename_i hno
@@ -1241,8 +1176,7 @@ theorem recOK_apply {E : Env} (hU : UnifyLaws E) : ∀ n, RecOK E (apply E n) :=
         simp only [hnd, Bool.false_eq_true, if_false] at h
         split at h
         · -- unknown or null: the type comes from dynamicReplace
-          have hrepl := dynRepl_id E hU inT (stripOpt out) (regular_stripOpt inT out hc.reg)
-            (by rw [stripOpt_hasDyn]; exact hc.dynO) (stripOpt_noOpt out) (wf_stripOpt out hc.wfO)
+          have hrepl := dynRepl_id E hU inT out hc.reg hc.dynO hc.wfO
           rw [hc.ty, hrepl] at h
           simp only at h
           split at h
